@@ -64,6 +64,28 @@ func genMembershipPlan(seed uint64, tier string) *Plan {
 		}
 		var sc []simnet.Answer
 		failRun := 0
+		if g.chance(15) {
+			// sporadic failures: single failed lookups between successful ones that return the same addresses -
+			// never more than three in a row, so the rotation must stay as it is however many there are in total
+			var same []string
+			for _, ip := range pool {
+				if g.chance(60) {
+					same = append(same, ip)
+				}
+			}
+			if len(same) == 0 {
+				same = []string{pool[0]}
+			}
+			for i := 0; i < steps+1; i++ {
+				if i%2 == 1 || (i > 0 && g.chance(25) && !(len(sc) >= 3 && sc[len(sc)-1].Fail && sc[len(sc)-2].Fail && sc[len(sc)-3].Fail)) {
+					sc = append(sc, simnet.Answer{Fail: true})
+				} else {
+					sc = append(sc, simnet.Answer{IPs: append([]string(nil), same...)})
+				}
+			}
+			c.DNSScript[n] = sc
+			continue
+		}
 		for i := 0; i < steps+1; i++ {
 			// failure runs of length 3 and 4 are what the statement is about
 			if failRun > 0 {
